@@ -333,6 +333,13 @@ func (k *Keeper) UnescrowCoin(ctx sdk.Context, escrowAddress, receiver sdk.AccAd
 func (k *Keeper) TokenFromCoin(ctx sdk.Context, coin sdk.Coin) (types.Token, error) {
 	// if the coin does not have an IBC denom, return as is
 	if !strings.HasPrefix(coin.Denom, "ibc/") {
+		// a native denomination whose name parses as an ICS-20 path (port/channel/base) cannot be
+		// represented unambiguously in packet data: the receiving and refunding logic would treat
+		// the leading segments as hops.
+		if !types.ExtractDenomFromPath(coin.Denom).IsNative() {
+			return types.Token{}, errorsmod.Wrapf(types.ErrInvalidDenomForTransfer, "native denomination %s is not distinguishable from an ICS-20 denomination path", coin.Denom)
+		}
+
 		return types.Token{
 			Denom:  types.NewDenom(coin.Denom),
 			Amount: coin.Amount.String(),
